@@ -212,6 +212,14 @@ def rule_SO(run: Run) -> RuleResult:
             elif succ[0] != len(evs) - 1:
                 ok_c = False
                 d_c = f"{op}: events on members continue after the first success (last success would win)"
+    # the delegated operation itself is inside the fall-through try
+    for op in ("evaluate", "keys", "validate", "explain"):
+        for p in run.paths(co, op):
+            for e in p.events:
+                if e.kind == "op" and e.op == op and isinstance(e.target, Child) and e.target.path == "members[*]" and not any(c[0].startswith("except") for c in p.conds[:e.ncond]):
+                    if not any("EvaluationError" in g for g in e.guards):
+                        ok_c = False
+                        d_c = f"{op} of a member (line {e.line}) is outside the try that falls through to the next member: a member that validates but fails to {op} aborts the coalesce"
     res.count("paths", n)
     res.add("labrea.coalesce.Coalesce._delegate:first member that validates and succeeds wins", ok_c and n >= 4, f, ln, d_c or f"{n} returning paths", nec)
     ps = analyse_method(Ctx(repo, unroll=2), co, "_delegate")
@@ -289,6 +297,19 @@ def rule_OP(run: Run) -> RuleResult:
                     ok = not bad and not sl
                     res.add(f"{cls.qualname}.{mname}:iterates {hit[0]} in stored order", ok, cls.module.relpath if cls.find_method(mname)[0] is cls else cls.find_method(mname)[0].module.relpath, it.lineno,
                             txt[:80] + (f" — reordered by {bad or 'slice'}" if not ok else ""), nec)
+    # no op-reachable iteration of a node class visits only part of what it iterates
+    for cls in run.node_classes():
+        for mname, fn in _op_reachable_methods(cls).items():
+            owner = cls.find_method(mname)[0]
+            if owner.name in ("Evaluatable", "Cacheable", "Validatable", "Explainable"):
+                continue
+            for x in astu.walk_no_nested(fn):
+                if isinstance(x, (ast.For, ast.comprehension)):
+                    it = x.iter
+                    part = [s_ for s_ in ast.walk(it) if isinstance(s_, ast.Slice)] or [c for c in astu.calls_in(it) if astu.short_name(c) in ("islice", "next", "head", "first")]
+                    if part:
+                        res.add(f"{cls.qualname}.{mname}:iterates {ast.unparse(it)[:40]} in stored order", False, owner.module.relpath, it.lineno,
+                                f"{ast.unparse(it)[:80]} visits only part of the sequence", nec)
     res.count("iterations", n_iters)
     if n_iters < 20:
         raise AnalysisError(f"R-OP found only {n_iters} iterations over child collections")
@@ -513,6 +534,18 @@ def rule_RG(run: Run) -> RuleResult:
                 loops.append(ast.unparse(cur.iter))
         ok = "aliases" in loops and any("member_list" in l or "members" in l for l in loops)
     res.add("labrea.interface.Implementation.__init__:every member registered under every alias", ok, im.module.relpath, fn.lineno, "nested loops over the member list and the aliases", nec)
+    # every interface's member of a name is collected (multi-interface implementations)
+    gm = repo.functions.get("labrea.interface._get_members")
+    if gm is None:
+        raise AnalysisError("labrea.interface._get_members not found")
+    appends = [c for c in astu.calls_in(gm.node) if isinstance(c.func, ast.Attribute) and c.func.attr == "append"
+               and isinstance(c.func.value, (ast.Call, ast.Subscript)) and "members" in ast.unparse(c.func.value)]
+    discarded = [s_ for s_ in ast.walk(gm.node) if isinstance(s_, ast.Expr) and isinstance(s_.value, ast.Call) and isinstance(s_.value.func, ast.Attribute)
+                 and s_.value.func.attr == "setdefault" and len(s_.value.args) == 2 and not (isinstance(s_.value.args[1], (ast.List, ast.Dict)) and not getattr(s_.value.args[1], "elts", getattr(s_.value.args[1], "keys", [])))]
+    ok = bool(appends) and not discarded
+    res.add("labrea.interface._get_members:collects the member of every interface (append, not first-wins)", ok, gm.module.relpath, gm.node.lineno,
+            "members.setdefault(name, []).append(member)" if ok else ("setdefault(name, [member]) keeps only the first interface's member" if discarded else "no append into the member list"),
+            "an implementation of several interfaces sharing a member name must be checked against and registered on every one of them (C07)")
     # unknown member names are rejected
     bo = repo.functions.get("labrea.interface._build_overloads")
     ok = False
@@ -727,6 +760,33 @@ def rule_CD(run: Run) -> RuleResult:
                         "handler re-raises" if not swallows else "handler swallows evaluation errors at a point that is not a documented fall-through", nec)
             else:
                 res.add(f"{q}:except {','.join(types)} (specific)", True, m.relpath, h.lineno, "specific exception type", nec)
+    # calls of user-supplied callables (bodies, predicates, steps, callbacks) must
+    # not sit inside a try that catches anything but the EvaluationError family
+    n_calls = 0
+    seen_c = set()
+    for cls in run.node_classes():
+        for op in ("evaluate", "validate", "keys", "explain"):
+            for p in run.paths(cls, op):
+                for e in p.events:
+                    if e.kind != "call" or e.text not in ("<value>", "func"):
+                        continue
+                    n_calls += 1
+                    for g in e.guards:
+                        for t in g.replace("!", "").split("|"):
+                            for one in t.strip("() ").split(","):
+                                one = one.strip().split(".")[-1]
+                                if not one or exc_is_subclass(repo, one, "EvaluationError"):
+                                    continue
+                                if one in ("Exception", "BaseException") and e.file.endswith("types.py"):
+                                    continue
+                                key = (cls.name, op, e.file, e.line, one)
+                                if key in seen_c:
+                                    continue
+                                seen_c.add(key)
+                                res.add(f"{cls.qualname}.{op}:user callable called inside try/except {one}", False, e.file, e.line,
+                                        f"a user-supplied callable is called (line {e.line}) inside a try that catches {one}: an exception raised by user code is swallowed "
+                                        "instead of surfacing as an EvaluationError", nec)
+    res.count("user_calls", n_calls)
     missing = FALLTHROUGH - seen_ft
     for q in sorted(missing):
         res.add(f"{q}:fall-through handler present", False, "", 0, "documented fall-through point has no except EvaluationError handler any more", nec)
